@@ -527,3 +527,158 @@ Example refusal_nonvacuous :
   missing_boundary (G [V 0 0 0 0 0; V 1 1 0 0 1; V 2 0 0 0 2] [(0%nat, 1%nat, 1); (1%nat, 2%nat, 1)] [0%nat] [] (1%Q, 0%Q)) = true /\
   duplicate_boundary (G [V 0 0 0 0 0; V 1 1 0 0 1] [(0%nat, 1%nat, 1)] [0%nat] [0%nat] (1%Q, 0%Q)) = true.
 Proof. split; reflexivity. Qed.
+
+(* ================================================================== to_pyzx: Hadamard parity *)
+(* SPECIFICATION of the wires of a diagram: the scan with, for each open wire, the
+   vertex it comes from and the NUMBER of H boxes met so far; every wire that ends
+   (in a spider or at an output) is reported as (source, target, number of H boxes) *)
+Definition nscan := list (nat * nat).
+Definition nedge := (nat * nat * nat)%type.
+Definition flag (x : nat * nat) : nat * bool := (fst x, Nat.odd (snd x)).
+Definition edge_of (e : nedge) : edge := (fst (fst e), snd (fst e), etype_of (Nat.odd (snd e))).
+
+Definition nstep (node : nat) (sc : nscan) (b : zxbox) (off : nat) : option (nscan * list nedge * nat) :=
+  match b with
+  | BSpider _ nin nout _ =>
+      let legs := firstn nin (skipn off sc) in
+      if Nat.ltb (length legs) nin then None else
+      Some (firstn off sc ++ repeat (node, O) nout ++ skipn (off + nin) sc,
+            map (fun l : nat * nat => (fst l, node, snd l)) legs, S node)
+  | BSwap =>
+      match nth_error sc off, nth_error sc (S off) with
+      | Some a, Some b' => Some (firstn off sc ++ [b'; a] ++ skipn (off + 2) sc, [], node)
+      | _, _ => None
+      end
+  | BHad =>
+      match nth_error sc off with
+      | Some (n, c) => Some (firstn off sc ++ [(n, S c)] ++ skipn (S off) sc, [], node)
+      | None => None
+      end
+  | BScalar _ _ => Some (sc, [], node)
+  | BOther _ _ => None
+  end.
+
+Fixpoint nrun (node : nat) (sc : nscan) (bs : list (zxbox * nat)) : option (nscan * list nedge * nat) :=
+  match bs with
+  | [] => Some (sc, [], node)
+  | (b, off) :: bs' =>
+      match nstep node sc b off with
+      | None => None
+      | Some (sc1, es1, node1) =>
+          match nrun node1 sc1 bs' with
+          | None => None
+          | Some (sc2, es2, node2) => Some (sc2, es1 ++ es2, node2)
+          end
+      end
+  end.
+
+Fixpoint nouts (node : nat) (sc : nscan) (i n : nat) : option (list nedge) :=
+  match n with
+  | O => Some []
+  | S n' =>
+      match nth_error sc i with
+      | None => None
+      | Some (s, c) => option_map (cons (s, node, c)) (nouts (S node) sc (S i) n')
+      end
+  end.
+
+Definition wire_trace (dom cod : nat) (bs : list (zxbox * nat)) : option (list nedge) :=
+  match nrun dom (map (fun i => (i, O)) (seq 0 dom)) bs with
+  | None => None
+  | Some (sc, es, node) => option_map (app es) (nouts node sc 0 cod)
+  end.
+
+Lemma odd_S c : Nat.odd (S c) = negb (Nat.odd c).
+Proof. rewrite Nat.odd_succ, <- Nat.negb_odd. reflexivity. Qed.
+
+Lemma flag_S n c : flag (n, S c) = (n, negb (Nat.odd c)).
+Proof. unfold flag. cbn [fst snd]. now rewrite odd_S. Qed.
+
+Lemma nth_error_flag sc i : nth_error (map flag sc) i = option_map flag (nth_error sc i).
+Proof. revert i. induction sc; destruct i; cbn; auto. Qed.
+
+Lemma map_repeat' {A B} (f : A -> B) x n : map f (repeat x n) = repeat (f x) n.
+Proof. induction n; cbn; congruence. Qed.
+
+Lemma nstep_sim row st b off st' sc :
+  step_box row st b off = Ok st' -> map flag sc = t_scan st ->
+  exists sc' es, nstep (length (t_vs st)) sc b off = Some (sc', es, length (t_vs st')) /\
+    map flag sc' = t_scan st' /\ t_es st' = t_es st ++ map edge_of es.
+Proof.
+  intros H Hsc. destruct b as [k nin nout p| | |re im|n m]; cbn [step_box nstep] in *.
+  - rewrite <- Hsc in H. rewrite skipn_map, firstn_map, map_length in H.
+    destruct (Nat.ltb _ nin); [discriminate|]. injection H as H; subst st'.
+    cbn [t_vs t_es t_scan]. eexists. eexists. split; [rewrite app_length, Nat.add_1_r; reflexivity|].
+    split.
+    + rewrite !map_app, firstn_map, skipn_map, map_repeat'. reflexivity.
+    + f_equal. rewrite !map_map. apply map_ext. intros [s c]. reflexivity.
+  - rewrite <- Hsc in H. rewrite nth_error_flag in H.
+    destruct (nth_error sc off) as [[n c]|]; [|discriminate]. cbn [option_map flag fst snd] in H.
+    injection H as H; subst st'. cbn [t_vs t_es t_scan].
+    eexists. eexists. split; [reflexivity|]. split.
+    + change (match map flag sc with [] => [] | _ :: l => skipn off l end)
+        with (skipn (S off) (map flag sc)).
+      rewrite !map_app, firstn_map, skipn_map. cbn [map app]. rewrite flag_S. reflexivity.
+    + cbn. now rewrite app_nil_r.
+  - rewrite <- Hsc in H. rewrite !nth_error_flag in H.
+    destruct (nth_error sc off) as [a|]; [|discriminate].
+    destruct (nth_error sc (S off)) as [b'|]; [|discriminate]. cbn [option_map] in H.
+    injection H as H; subst st'. cbn [t_vs t_es t_scan].
+    eexists. eexists. split; [reflexivity|]. split.
+    + rewrite !map_app, firstn_map, skipn_map. reflexivity.
+    + cbn. now rewrite app_nil_r.
+  - injection H as H; subst st'. cbn [t_vs t_es t_scan].
+    eexists. eexists. split; [reflexivity|]. split; [exact Hsc|]. cbn. now rewrite app_nil_r.
+  - discriminate.
+Qed.
+
+Lemma nrun_sim bs : forall row st st' sc,
+  run_boxes row st bs = Ok st' -> map flag sc = t_scan st ->
+  exists sc' es, nrun (length (t_vs st)) sc bs = Some (sc', es, length (t_vs st')) /\
+    map flag sc' = t_scan st' /\ t_es st' = t_es st ++ map edge_of es.
+Proof.
+  induction bs as [|[b off] bs IH]; intros row st st' sc H Hsc; cbn [run_boxes nrun] in *.
+  - inversion H; subst. exists sc, []. split; [reflexivity|]. split; [exact Hsc|]. cbn. now rewrite app_nil_r.
+  - bind_inv H. destruct (nstep_sim _ _ _ _ _ _ E Hsc) as (sc1 & es1 & N1 & S1 & E1).
+    destruct (IH _ _ _ _ H S1) as (sc2 & es2 & N2 & S2 & E2).
+    rewrite N1, N2. eexists. eexists. split; [reflexivity|]. split; [exact S2|].
+    rewrite E2, E1, map_app, app_assoc. reflexivity.
+Qed.
+
+Lemma nouts_sim rowz n : forall i st outs st' outs' sc,
+  add_outputs rowz i n st outs = Ok (st', outs') -> map flag sc = t_scan st ->
+  exists es, nouts (length (t_vs st)) sc i n = Some es /\ t_es st' = t_es st ++ map edge_of es.
+Proof.
+  induction n as [|n IH]; intros i st outs st' outs' sc H Hsc; cbn [add_outputs nouts] in *.
+  - inversion H; subst. exists []. split; [reflexivity|]. cbn. now rewrite app_nil_r.
+  - rewrite <- Hsc in H. rewrite nth_error_flag in H.
+    destruct (nth_error sc i) as [[s c]|]; [|discriminate]. cbn [option_map flag fst snd] in H.
+    apply (IH _ _ _ _ _ sc) in H; [|reflexivity].
+    cbn [t_vs t_es] in H. rewrite app_length, Nat.add_1_r in H. destruct H as (es & Hn & He).
+    rewrite Hn. cbn [option_map]. eexists. split; [reflexivity|].
+    rewrite He, <- app_assoc. reflexivity.
+Qed.
+
+(* the edges of the exported graph are exactly the wires of the diagram, in the
+   order in which they end; an edge is HADAMARD iff the wire met an odd number of
+   H boxes *)
+Theorem to_pyzx_hadamard_parity dom cod bs g :
+  to_pyzx dom cod bs = Ok g ->
+  exists ws, wire_trace dom cod bs = Some ws /\ gedges g = map edge_of ws.
+Proof.
+  unfold to_pyzx, wire_trace. intros H. bind_inv H. rename a into st. bind_inv H.
+  destruct a as [st' outs]. inversion H; subst g; clear H. cbn [gedges fst].
+  destruct (init_state_inv dom) as (_ & _ & L0).
+  assert (Hsc : map flag (map (fun i => (i, O)) (seq 0 dom)) = t_scan (init_state dom)).
+  { unfold init_state. cbn [t_scan]. rewrite map_map. reflexivity. }
+  destruct (nrun_sim _ _ _ _ _ E Hsc) as (sc1 & es1 & N1 & S1 & E1).
+  rewrite L0 in N1. rewrite N1.
+  destruct (nouts_sim _ _ _ _ _ _ _ _ E0 S1) as (es2 & N2 & E2).
+  rewrite N2. cbn [option_map]. eexists. split; [reflexivity|].
+  rewrite E2, E1. unfold init_state. cbn [t_es app]. now rewrite map_app.
+Qed.
+
+Example wire_trace_example :
+  wire_trace 3 2 [(BHad, 2%nat); (BHad, 2%nat); (BHad, 2%nat); (BSwap, 1%nat); (BSpider SZ 2 1 (1 # 8), 0%nat)]
+  = Some [(0, 3, 0); (2, 3, 3); (3, 4, 0); (1, 5, 0)]%nat.
+Proof. reflexivity. Qed.
